@@ -19,16 +19,20 @@ ImplRead(st, cur, ReadSize) ==
        IN [res |-> "data", n |-> n, st |-> [st EXCEPT !.s = st.s + n]]
 
 \* ---- observation history of one stream
-InitFile(size, a, b) ==
-  [size |-> size, cur |-> size, a |-> a, b |-> b, y |-> 0, term |-> "none", polls |-> 0, pend |-> 0, bad |-> {}]
+\* zero: every byte of the file is zero (a hole) instead of the harness's position-coded content
+InitFileZ(size, a, b, zero) ==
+  [size |-> size, cur |-> size, a |-> a, b |-> b, y |-> 0, term |-> "none", polls |-> 0, pend |-> 0, bad |-> {},
+   zero |-> zero]
+InitFile(size, a, b) == InitFileZ(size, a, b, FALSE)
 
 Truncate(fs, len) == [fs EXCEPT !.cur = IF len < fs.cur THEN len ELSE fs.cur]
 
-\* p: [res, n, runs]  (runs: <<first byte, length>> of each ascending run of the chunk)
+\* p: [res, n, runs, z]  (runs: <<first byte, length>> of each ascending run of the chunk; z: all bytes zero)
+ContentOK(fs, p) == IF fs.zero THEN p.z ELSE p.runs = <<<<(fs.a + fs.y) % 251, p.n>>>>
 PollFailures(fs, p) ==
   {id \in Enforce : id = "C18" /\
      \/ p.res = "data" /\ (p.n < 1 \/ fs.y + p.n > fs.b - fs.a
-                             \/ p.runs # <<<<(fs.a + fs.y) % 251, p.n>>>>)   \* exactly the file bytes, in order
+                             \/ ~ContentOK(fs, p))                       \* exactly the file bytes, in order
      \/ p.res = "data" /\ fs.a + fs.y + p.n > fs.cur                      \* bytes beyond the end of the file
      \/ p.res = "end" /\ fs.y # fs.b - fs.a                               \* never ends short
      \/ p.res = "err" /\ fs.cur >= fs.b                                   \* fails only when truncated
@@ -48,7 +52,7 @@ ObservePoll(fs, p) ==
 OpenFailures(o) ==
   {id \in Enforce : id = "C18" /\
      \/ ~o.ok
-     \/ o.len # <<0, 0, o.size>>
+     \/ o.len # o.sizeL
      \/ o.lm_s # o.mt_s \/ o.lm_ns # o.mt_ns
      \/ o.etag.k # "tag"
      \/ ~(o.etag.q0 /\ o.etag.qn /\ o.etag.inner = 0 /\ ~o.etag.weak /\ o.etag.vchar)}
